@@ -527,6 +527,10 @@ class Folder:
             if isinstance(r0, External) and r0.dotted.split(".")[0] in ("itertools", "functools", "math", "collections", "fractions", "typing", "struct", "operator"):
                 name = r0.dotted  # `from itertools import product` -> itertools.product
         args = e.args
+        if name is not None and name.endswith(".__init__") and name.split(".")[0] not in self.env and isinstance(getattr(__import__("builtins"), name.split(".")[0], None), type) and name.count(".") == 1:
+            for a in args:
+                self.fold(a)
+            return None  # the constructor of a builtin base class (Exception.__init__(self, text)): no state the model observes
         if any(isinstance(a, ast.Starred) for a in args):
             return self._call_starred(e)
         if isinstance(e.func, ast.Attribute) and isinstance(e.func.value, ast.Call) and dotted(e.func.value.func) == "super" and not e.func.value.args and self.repo is not None and self.cls is not None:
